@@ -458,7 +458,17 @@ func (e *Engine) importedPkg(env *SpecEnv, name string) *types.Package {
 			return imp
 		}
 	}
-	return nil
+	// any loaded package with that name (unique names only)
+	var found *types.Package
+	for _, p := range e.w.Pkgs {
+		if p.Types != nil && p.Types.Name() == name {
+			if found != nil && found != p.Types {
+				return nil
+			}
+			found = p.Types
+		}
+	}
+	return found
 }
 
 func (e *Engine) selectField(env *SpecEnv, x Val, name string) Val {
@@ -879,6 +889,27 @@ func (e *Engine) trGoCall(env *SpecEnv, full string, obj types.Object, args []SE
 	}
 	if h, ok := pureSpecFuncs[full]; ok {
 		return h(e, env, vals)
+	}
+	// a loop-free repository function: its value is obtained by executing its body symbolically
+	if fobj, ok := obj.(*types.Func); ok {
+		if fn := e.w.Prog.FuncValue(fobj); fn != nil && len(fn.Blocks) > 0 {
+			dummy := &fnCtx{fn: fn}
+			if e.canInline(dummy, fn) {
+				sig := fn.Signature
+				for i := range vals {
+					if i < sig.Params().Len() {
+						vals[i].GoT = sig.Params().At(i).Type()
+					}
+				}
+				e.dry++
+				res := e.inlineCall(dummy, env.st.clone(), fn, vals, nil, sig.Results())
+				e.dry--
+				if sig.Results().Len() == 1 {
+					res.GoT = sig.Results().At(0).Type()
+				}
+				return res
+			}
+		}
 	}
 	e.specFail(env, "function "+full+" cannot be used in specifications")
 	return Val{}
